@@ -273,9 +273,11 @@ def run(ctx):
         "distinct_nontrivial": tot["distinct_nontrivial"],
         "rule": "for every (pre-state, wallet write operation) group: an uninterrupted reference run on a copy of the "
                 "pre-state database (counts the VM steps, finds the statement boundaries), then one execution per fault "
-                "position (first and last VM step of sampled statements, all steps around BEGIN/COMMIT, seeded interior "
-                "steps) with SQLite's progress handler failing the running statement there, followed by the same call "
-                "again; evaluations = wallet API calls executed under instrumentation; distinct_nontrivial = distinct "
+                "position (every distinct statement text: first step of its first and last execution + a middle step; "
+                "first and last VM step of sampled statements; all steps around BEGIN/COMMIT; seeded interior steps) "
+                "with SQLite's progress handler failing the running statement there, followed (quick: every 3rd/4th "
+                "time) by the same call again; quick runs the operations other than scan/truncate/rewind/lock/tip on one "
+                "of the wallets A, B chosen by the seed and rotates the journal modes with the seed; evaluations = wallet API calls executed under instrumentation; distinct_nontrivial = distinct "
                 "(pre-state, operation, VM step) at which the fault fired while at least one row change of the open "
                 "transaction was pending (update-hook count > 0), i.e. a partial state existed to be rolled back",
         "states": max(1, ctx.states), "transitions": max(1, ctx.transitions),
